@@ -29,41 +29,39 @@ from irispie.series import _ell_one as L1MOD
 from .common import Ctx, err_kind, rat_of_float, VERIF
 
 DRIVERS = ["C14"]
-EXTRA_PROPS = ['BridgeC14', 'C14Span', 'QMatSolveBridge', 'GenTieCore', 'GenTieC14']   # refinement bridge from the executable QMat model to the matrix-level theorems (audited with this check)
+EXTRA_PROPS = ['BridgeC14', 'C14Span', 'QMatSolveBridge', 'C14Compose', 'GenTieCore', 'GenTieC14']   # refinement bridge from the executable QMat model to the matrix-level theorems (audited with this check)
 LEVEL = "proof"
 MANIFEST = {
     "category": "proof",
-    "text": ("Lean 4 theorems (Mathlib matrices over any linearly ordered field, all sizes, all data, all observation patterns, all "
-             "constraint positions): if the bordered system F(tau,mu) = (W y, c) with F = [[lam K'K + W, C'],[C, 0]] holds then tau meets "
-             "every level and change constraint exactly and minimises sum_obs (y-tau)^2 + lam sum (second differences)^2 among all "
-             "sequences meeting them (exact excess J(tau') - J(tau) = J0(tau'-tau)); the minimiser is unique when two observations "
-             "exist; the kernel of K is exactly the affine sequences, so a fully observed straight line is returned unchanged; missing "
-             "observations carry no fidelity term. About the executable exact-rational model of series/_hp.py: its system matrix equals F "
-             "entrywise, every answer it gives (exactly re-checked F x = b) is therefore the unique constrained minimiser (end-to-end "
-             "theorem model_trend_is_the_minimiser), trend+gap=data where data exist, log=True is exp . hpf . log, the requested span only "
-             "slices the result computed on the encompassing span. EXISTENCE: lam K'K + W is definite, the bordered matrix F is "
-             "non-singular (IsUnit det) for lam > 0, two observations and independent constraints (distinct levels, distinct changes, no "
-             "level-changes-level cycle: full row rank proved), so the unique constrained minimiser exists; the same for the model's own "
-             "matrix over Q (model_sysMatrix_nonsingular). lonf: the dual-form KKT conditions imply optimality and uniqueness, also with "
-             "missing observations (fidelity weights, l1w_gap_bound) and instantiated on lonf's own first/second-order matrices (entry "
-             "formulas proved, dmat stream exact); any dual-feasible nu bounds the sub-optimality by its duality gap. The model is tied to "
-             "the code on every run by staged differential correspondence (encompassing span/constraint preparation, the system matrix and "
-             "the lonf difference matrices exactly; trend/gap at 1e-6 relative on instances with numpy-measured cond <= 1e8) and by "
-             "exact-arithmetic certificates evaluated on the implementation's own output (normal-equation residual; for lonf the dual "
-             "certificate), plus an independent oracle (perturbation test of the exact objective, least-squares reference, constraints, "
-             "straight lines, spans, variants, log, missing observations). SPANS AND STATE (Model/HPSpan.lean, Props/C14Span.lean): the span "
-             "argument in the form it is given (.../None, Span with open ends, any step, either direction, any iterable in any order) is "
-             "reduced to (min, max) of the requested periods (hullOf_spec; order, repetition, direction irrelevant: hullOf_congr, "
-             "hull_backward_eq_forward); the filter span is the hull of data, constraints and requested periods (encompassing_is_hull, "
-             "filter_span_contains_request); the output is dated from the minimum and is the slice [min-lo : max-lo+1] of the unclipped "
-             "result with exactly max-min+1 periods (dataHpfReq_restriction, dataHpf_output_length); filter_data leaves the filter object "
-             "unchanged, so the variant loop is a map of the stateless filter (run_is_map, run_variant_local). CONVERSE: dependent "
-             "constraints make F singular; non-singular <=> distinct levels, distinct changes, no level-changes-level cycle "
-             "(hp_nonsingular_iff_independent). Streams added: hpfq (span forms), obj (self._F before/after the variant loop, exact), "
-             "malformed (empty selection); history oracle (first cases re-run at the end after a call with another lambda: bitwise equal). "
-             "PARTIAL: lonf is certificate validation only (daqp's active-set "
-             "iteration is not modelled); floating point and LAPACK are outside the theorems; completeness of QMat.solve (that Gauss-Jordan "
-             "finds the solution which is proved to exist) is not proved - the model re-checks every answer exactly instead."),
+    "text": ("Lean 4 theorems. (A) Mathlib matrices over any linearly ordered field, all sizes, data, observation patterns and "
+             "constraint positions: a solution (tau, mu) of the bordered system F(tau,mu) = (W y, c), F = [[lam K'K + W, C'],[C, 0]], meets "
+             "every level and change constraint exactly and, for lam >= 0, minimises sum_obs (y-tau)^2 + lam sum (second differences)^2 among "
+             "the sequences meeting them (exact excess J(tau') - J(tau) = J0(tau' - tau)); for lam > 0 and two observations it is the only "
+             "minimiser; ker K = affine sequences, so a fully observed straight line (with constraints on it) is returned unchanged; values "
+             "at missing observations enter neither objective nor right-hand side. For lam > 0 and two observations F is non-singular IFF "
+             "the constraints are independent (distinct levels, distinct changes >= 1, no level-changes-level cycle), so the unique "
+             "constrained minimiser exists exactly then. (B) About the executable exact-rational model of series/_hp.py: its system matrix "
+             "equals F entrywise; the rows of its bordered right-hand side are log(data) with zeros at missing observations, then the level "
+             "values, then the change values (each logged once); with the proved completeness of QMat.solve (Lemmas/QMatSolve.lean, not "
+             "mine) the model RETURNS a trend iff the constraints are independent (lam > 0, two observations), and what it returns meets "
+             "the constraints, minimises the objective and is the only such sequence (Props/C14Compose.lean: model_returns_the_minimiser, "
+             "filterData_isSome_iff_independent, dataHpf_answers; hypotheses on the input only, except that independence is stated on the "
+             "positions setup prepares); trend+gap=data where data exist; log=True equals exp . hpf . log as a function, and under "
+             "log(exp z) = z trend and gap add up to the data in logarithms; the span argument in any form (.../None, Span with open ends, "
+             "any step, either direction, any iterable) is reduced to (min, max) of the requested periods, the filter span is the hull of "
+             "data, constraints and request, the output is the slice [min-lo : max-lo+1] of the unclipped result with max-min+1 periods; "
+             "an empty selection or a zero step is rejected and nothing else is (dataHpfReq_none_iff); filter_data leaves the filter object "
+             "unchanged, the variant loop is a map of the stateless filter with the same unlogged constraint values for every variant. "
+             "(C) lonf (PARTIAL, certificate validation): for any difference matrix, |nu| <= lam, tau = y - D'nu and complementarity imply "
+             "optimality and uniqueness; with missing observations (fidelity weights) optimality only; any dual-feasible nu bounds the "
+             "sub-optimality by its duality gap; instantiated on lonf's own first/second-order matrices, whose entry formulas are proved. "
+             "TIE, every run: staged exact correspondence (encompassing span and constraint preparation, system matrix, the arguments of "
+             "numpy.linalg.solve per variant captured in flight, self._F before/after the variant loop, lonf difference matrices, rejected "
+             "requests), trend/gap at 1e-6 relative on instances with numpy-measured cond <= 1e8, exact-arithmetic certificates on the "
+             "implementation's own output (normal-equation residual; lonf dual certificate), and an independent oracle (perturbation test "
+             "of the exact objective, least-squares reference, constraints, straight lines, spans, variants alone = variants together for "
+             "hpf and lonf, log, missing observations, history re-runs). NOT PROVED: anything about daqp, floating point, LAPACK; that the "
+             "positions setup prepares are distinct (true by construction, compared exactly with the code on every case)."),
     "design": "7/C14",
     "note": ("Tolerances apply only to generator-controlled instances (integer data, n <= 46, cond(F) <= 1e8 measured with numpy). "
              "lonf part is partial: optimality is validated per output through the proved duality-gap bound, not derived from daqp. "
@@ -71,7 +69,7 @@ MANIFEST = {
     "technique": "Lean 4 proof of schematic optimality theorems + exact rational model + differential correspondence + certificate validation",
 }
 ASSUMPTIONS = [
-    "QMat.solve (Gauss-Jordan over Rat) is not proved correct; every model answer carries the exact re-check F x = b, which is the hypothesis of the theorems",
+    "QMat.solve: soundness and completeness are proved in Lemmas/QMatSolve.lean (shared file); the model additionally re-checks every answer exactly (F x = b)",
     "tolerance comparisons only on instances with numpy-measured cond(F) <= 1e8; floating-point rounding and LAPACK are not modelled",
     "lonf: only the returned (trend, gap) is validated (dual certificate in exact arithmetic, also with missing observations); daqp itself is not modelled",
     "log=True: numpy log/exp are treated as abstract mutually inverse functions (the model is run on the logged data)",
@@ -433,7 +431,7 @@ def gen_hpf_case(rng, quick=True):
     f = rng.weighted([("Q", 4), ("M", 2), ("Y", 2), ("I", 1), ("H", 1), ("D", 1)])
     n = rng.weighted([(rng.randint(3, 8), 3), (rng.randint(9, 25), 4), (rng.randint(26, 40), 2)])
     log = rng.chance(0.2)
-    nv = 2 if rng.chance(0.25) else 1
+    nv = (2 if rng.chance(0.7) else 3) if rng.chance(0.45 if log else 0.25) else 1
     lam = rng.choice(LAMS) if rng.chance(0.8) else rng.choice(LAMS_OTHER)
     dstart = BASE[f] + rng.randint(-30, 30)
     pnan = rng.choice([0.0, 0.1, 0.25])
@@ -461,9 +459,10 @@ def gen_hpf_case(rng, quick=True):
         data.append(col)
     case = {"kind": "hpf", "freq": f, "lam": lam, "log": log, "dstart": dstart, "data": data, "level": None, "change": None,
             "span": None, "span_form": "span"}
-    if rng.chance(0.45):
+    both = rng.chance(0.2)        # level AND change constraints together (bordered right-hand side: two blocks)
+    if both or rng.chance(0.4):
         case["level"] = gen_constraint(rng, dstart, n, 1 if log else -30, 100 if log else 30, 3)
-    if rng.chance(0.45):
+    if both or rng.chance(0.4):
         case["change"] = gen_constraint(rng, dstart, n, -3, 3, 3, ratio=log)
     sp = rng.weighted([("none", 3), ("inside", 3), ("beyond", 3), ("left", 1), ("right", 1), ("single", 1)])
     dlo, dhi = dstart, dstart + n - 1
@@ -649,7 +648,17 @@ def run_hpf_case(ctx: Ctx, case, rng, collect):
     site_prefix = "hpf-log" if log else "hpf"
     try:
         t, g = call_hpf(case, x, lev, chg, span)
-        tw, gw = call_hpf(case, x, lev, chg, wide)
+        captured = []
+        orig_solve = np.linalg.solve
+
+        def recording_solve(a, b, *args, **kw):
+            captured.append((np.array(a, dtype=float), np.array(b, dtype=float)))
+            return orig_solve(a, b, *args, **kw)
+        np.linalg.solve = recording_solve
+        try:
+            tw, gw = call_hpf(case, x, lev, chg, wide)
+        finally:
+            np.linalg.solve = orig_solve
     except Exception as e:
         ctx.fail(site_prefix + "-raises", case, repr(e))
         return True
@@ -793,6 +802,8 @@ def run_hpf_case(ctx: Ctx, case, rng, collect):
             except Exception:
                 pass
         after = mat_text(np.array(hp2._F, dtype=float))
+        # the arguments of the linear solve, per variant, as the implementation passed them (captured above)
+        collect.append(("args", "args " + " ".join(wwide), {"captured": captured, "log": log}, case))
         collect.append(("obj", "obj " + " ".join(wwide), f"before {before} after {after} answered {answered}", case))
     # ---- history: the first cases of a run are kept and run again at the end (output must be a pure function of the arguments)
     hist = ctx.extra.setdefault("_history", [])
@@ -922,6 +933,18 @@ def run_lonf_case(ctx: Ctx, case, rng, collect):
         ctx.count(f"lonf:kinks={'0' if nk == 0 else '1-3' if nk <= 3 else '4+'}")
         if nk > 0 and nk < n - order:
             ctx.nontriv(("lonf", f, order, str(case["lam"]), n, nk, k))
+    # variant locality: each variant filtered on its own gives the same trend and gap
+    if Y.shape[1] > 1 and T.shape[1] == Y.shape[1]:
+        for k in range(Y.shape[1]):
+            try:
+                x1 = make_series(f, case["dstart"], [case["data"][k]])
+                t1, g1 = ir.lonf(x1, order, lam, span=(ir.Span(P(f, lo), P(f, hi)) if span else None))
+                T1, G1 = grid(t1, f, lo, hi)[:, 0], grid(g1, f, lo, hi)[:, 0]
+                if not (np.allclose(T1, T[:, k], rtol=0, atol=1e-9 * scale_of(Y), equal_nan=True)
+                        and np.allclose(G1, G[:, k], rtol=0, atol=1e-9 * scale_of(Y), equal_nan=True)):
+                    ctx.fail("lonf-variants", case, f"variant {k} filtered alone gives a different trend or gap")
+            except Exception as e:
+                ctx.fail("lonf-variants", case, f"variant {k} alone: {e!r}")
     hist = ctx.extra.setdefault("_history", [])
     if sum(1 for h in hist if h[0] == "lonf") < 6 and collect is not None:
         hist.append(("lonf", case, T.copy(), G.copy()))
@@ -948,6 +971,34 @@ def compare_with_model(ctx: Ctx, collect):
         if stream in ("setup", "sys", "dmat", "obj", "malformed"):
             if rep != want:
                 ctx.disagree(stream, short, want[:600], rep[:600])
+        elif stream == "args":
+            parts = rep.split(" | ")
+            cap = want["captured"]
+            if len(parts) != len(cap):
+                ctx.disagree(stream, short, f"{len(cap)} linear solves (one per variant)", f"{len(parts)} variants in the model")
+                continue
+            for k, (part, (Fm, bm)) in enumerate(zip(parts, cap)):
+                ftxt, btxt = part.split(" b ")
+                fw, bw = ftxt.split(), btxt.split()
+                rws, cls = int(fw[0]), int(fw[1])
+                bad = None
+                if Fm.shape != (rws, cls) or bm.reshape(-1).shape[0] != int(bw[0]):
+                    bad = f"shapes F {Fm.shape} rhs {bm.shape} vs model {(rws, cls)} / {bw[0]}"
+                elif [Fr(w) for w in fw[2:]] != [Fr(float(v)) for v in Fm.reshape(-1)]:
+                    bad = "system matrix differs"
+                else:
+                    mb = [Fr(w) for w in bw[1:]]
+                    ib = [float(v) for v in bm.reshape(-1)]
+                    if want["log"]:
+                        ok = all(abs(float(a) - b) <= 1e-12 * max(1.0, abs(b)) for a, b in zip(mb, ib))
+                    else:
+                        ok = mb == [Fr(b) for b in ib]
+                    if not ok:
+                        worst = max(range(len(ib)), key=lambda i: abs(float(mb[i]) - ib[i]))
+                        bad = f"right-hand side differs, first/worst at row {worst}: implementation {ib[worst]!r}, model {float(mb[worst])!r}"
+                if bad:
+                    ctx.disagree(stream, short, f"variant {k}: arguments of numpy.linalg.solve", bad)
+                    break
         elif stream == "hpf":
             r = parse_hpf_reply(rep)
             if r is None:
